@@ -56,9 +56,9 @@ def main():
         for c in res['results']:
             ok_fns = [driver.qual(b['function']) for b in c['breakdown'] if b.get('success')]
             bad_fns = [driver.qual(b['function']) for b in c['breakdown'] if not b.get('success')]
-            nobl = len(c['breakdown']) if c['breakdown'] else c['verified']
-            cov['obligations'] += nobl
-            cov['discharged'] += len(ok_fns) if c['breakdown'] else (c['verified'] if c['status'] == 'pass' else 0)
+            nerr = len({e['fn'] for e in c['errors']}) if c['status'] != 'pass' else 0
+            cov['obligations'] += c['verified'] + nerr
+            cov['discharged'] += c['verified']
             uinfo['files'].append(dict(file=os.path.basename(c['file']), status=c['status'], verified=c['verified'], wall_s=round(c['wall'], 1),
                                        smt_ms=sum(b.get('time', 0) for b in c['breakdown']), backend='verus 0.2026.09.13 / z3 4.16',
                                        reason=c['reason'][:500], errors=c['errors'][:10]))
